@@ -73,13 +73,24 @@ ApplyCall2(e) ==
     ELSE withCur
 
 \* ---- ctor ---------------------------------------------------------------------------------
+\* Is instance j still held by its scope?  A disposable one until it is closed.  One that is not disposable
+\* never shows a close event: it shares the fate of the disposable outputs of the same invocation (a refused
+\* store discards all of them); if the invocation has none, it can only have been dropped by a scope that is
+\* being closed.
+StillHeld(j) ==
+    LET me == cs.inst[j]
+        sib == {k \in Ids : cs.inst[k].reg = me.reg /\ cs.inst[k].born = me.born /\ cs.inst[k].disp}
+    IN IF me.disp THEN me.closed = 0
+       ELSE IF sib # {} THEN \E k \in sib : cs.inst[k].closed = 0
+       ELSE ~(me.owner \in SNames /\ IsClosing(me.owner))
+
 GuardsCtor2(e) ==
     LET r == Reg(cs.cfg, e.reg)
         ok == e.outcome = "ok"
     IN
     {CG("singleton_only_at_build", {"C01"}, r.life = "singleton" => cs.phase = "building"),
      CG("one_live_scoped_instance", {"C02", "C09"}, (r.life = "scoped" /\ ok) =>
-           \A j \in Ids : (cs.inst[j].reg = e.reg /\ cs.inst[j].owner = e.scope) => cs.inst[j].closed >= 1),
+           \A j \in Ids : (cs.inst[j].reg = e.reg /\ cs.inst[j].owner = e.scope) => ~StillHeld(j)),
      CG("scoped_dependency_same_scope", {"C02", "C09"}, (r.life = "scoped" /\ ok) =>
            \A a \in Range(e.args) : \A j \in Range(a.ids) :
                (j \in Ids /\ cs.inst[j].life = "scoped") => cs.inst[j].owner = e.scope),
@@ -96,7 +107,9 @@ ApplyCtor2(e) ==
         owner == IF r.life = "singleton" THEN "prov" ELSE e.scope
         newIds == IF e.outcome = "ok" THEN Range(e.outs) ELSE {}
         recs == [i \in newIds |-> [reg |-> e.reg, outs |-> {x \in DOMAIN e.outs : e.outs[x] = i}, owner |-> owner, life |-> r.life,
-                                   disp |-> DispOf(cs.cfg, e.reg, CHOOSE x \in DOMAIN e.outs : e.outs[x] = i), value |-> FALSE,
+                                   disp |-> LET o == CHOOSE x \in DOMAIN e.outs : e.outs[x] = i
+                                            IN DispOf(cs.cfg, e.reg, o) /\ o \notin Rm(r),   \* a removed output is dropped, not tracked
+                                   value |-> FALSE,
                                    th |-> e.th, born |-> l, ready |-> 0, returned |-> FALSE, closed |-> 0, discarded |-> FALSE, failed |-> FALSE,
                                    deps |-> UNION {Range(e.args[j].ids) : j \in DOMAIN e.args}]]
     IN [cs EXCEPT !.inst = recs @@ @]
@@ -159,8 +172,9 @@ GuardsRet2(e) ==
      ELSE IF c.op \in {"resolve", "create"} THEN
         {CG("refused_after_close", {"C13"}, c.mustRefuse => (err \cap DisposedClasses # {})),
          CG("only_documented_errors", {"C09", "C13"}, err # {} =>
-               /\ err \cap DisposedClasses # {} /\ err \subseteq OverlapClasses
-               /\ (IF c.sc = "prov" THEN cs.pclosing > 0 ELSE (tgt \in SNames /\ IsClosing(tgt)))),
+               \/ (c.op = "resolve" /\ ~HasProvider(cs.cfg, c.t, c.k) /\ "notfound" \in err)   \* e.g. a removed output
+               \/ /\ err \cap DisposedClasses # {} /\ err \subseteq OverlapClasses
+                  /\ (IF c.sc = "prov" THEN cs.pclosing > 0 ELSE (tgt \in SNames /\ IsClosing(tgt)))),
          CG("failed_call_returns_nothing", {"C13", "C15"}, err # {} => e.res.k = "none")}
         \cup (IF c.op = "resolve" /\ err = {} /\ HasProvider(cs.cfg, c.t, c.k) THEN
                 LET p == ProviderOf(cs.cfg, c.t, c.k)
